@@ -7,6 +7,7 @@ EXPLANATION = (
 
 
 def check(ctx, prog):
+    model.rule_posted_kept(ctx, prog)  # every posted constraint stays posted (who may write the list of constraints)
     propagators.rule_prop_effects(ctx, prog)  # a filtering function never stores into its parameters (a view of the problem's table: the next call sees another constraint)
     engine.rule_flags_writers(ctx, prog, thorough=ctx.tier == "thorough")
     ctx.rule("R-PUSH-POP")
